@@ -102,7 +102,8 @@ C01_Step(s, e) ==
 C03_Budget(s, e, d, r) ==
     LET T      == Targeted(s, d, r, "active")
         StuckN == { n \in T : \E p \in KP(s, d, n) : p.stuck }
-        AvailN == { n \in T : \E p \in KP(s, d, n) : p.ready /\ ~p.stuck }
+        \* a node whose pod is outdated and already terminating is a node without an available pod (its own category in the statement)
+        AvailN == { n \in T : \E p \in KP(s, d, n) : p.ready /\ ~p.stuck /\ ~(p.term /\ p.hash # r.tmpl) }
         maxU   == Resolve(d.strat.maxUnavailable, Cardinality(T))
         maxSF  == Resolve(d.strat.maxSchedFailure, Cardinality(T))
         U      == Cardinality(T) - Min2(Cardinality(StuckN), maxSF) - Cardinality(AvailN)
@@ -283,8 +284,17 @@ C08_Step(s, e) ==
 -----------------------------------------------------------------------------
 (* C09 - slow start and spacing (the spacing clause needs history: see Trace.tla) *)
 
+\* "t is the time since its Active condition last became true": the condition has to follow the role - a replica set that is synced
+\* in a role other than active does not keep Active = True (else a later re-activation would count the ramp from the first one)
+C09_Deactivated(s, e) ==
+    (IsERS(s, e) /\ HasRS(e.state, e.rs) /\ FullSync(e) /\ AllOK(StatusWrites(e, "ERS"))) =>
+      LET r == RSOf(s, e.rs)  d == EDSOf(s, r.owner) IN
+        (Role(d, r) = "unknown" /\ d.defaulted /\ r.conds.Active.true) =>
+           (NT(<<"C09", "deactivated">>) /\ ~RSOf(e.state, e.rs).conds.Active.true)
+
 C09_Step(s, e) ==
-    IsERS(s, e) =>
+    /\ C09_Deactivated(s, e)
+    /\ IsERS(s, e) =>
       LET r == RSOf(s, e.rs)  d == EDSOf(s, r.owner)  role == Role(d, r) IN
         (role = "active" /\ GoodStrat(d)) =>
           LET T     == Targeted(s, d, r, role)
@@ -420,6 +430,7 @@ C13_Step(s, e) ==
                   LET x == RSOf(s, w.id)  d2 == EDSOf(e.state, e.key) IN
                     /\ NT(<<"C13", "delete">>)
                     /\ x.id # d2.active
+                    /\ x.name # d2.activeName     \* (the id of a recorded active replica set that no longer exists projects to -1)
                     /\ x.hashAnn # d.tmpl
                     /\ x.desired + x.current + x.ready + x.available = 0
     /\ (e.ev = "PodTemplateReconcile" /\ HasEDS(s, e.key) /\ AllOK(Writes(e)) /\ ~e.res.err) =>
@@ -465,6 +476,8 @@ C14_ERS(s, e) ==
         (Role(d, r) \in {"active", "canary"} /\ GoodStrat(d)) =>
           /\ NT(<<"C14", "ers", r2.desired, r2.current, r2.ready, r2.available>>)
           /\ 0 <= r2.available /\ r2.available <= r2.ready /\ r2.ready <= r2.current /\ r2.current <= r2.desired
+          \* desired (which the ExtendedDaemonSet copies) is the number of nodes the replica set targets, whatever state their pods are in
+          /\ Role(d, r) = "active" => r2.desired = Cardinality(Targeted(s, d, r, "active"))
 
 C14_Step(s, e) == C14_EDS(s, e) /\ C14_ERS(s, e) /\ C14_Quiescent(s, e)
 
